@@ -1,2 +1,3 @@
 -- Root of the Helm library: imports every property module (and through them models and lemmas).
 import Helm.Props.C08
+import Helm.Props.C04
